@@ -768,6 +768,17 @@ impl Object {
 	}
 }
 
+#[cfg(json_syntax_verif)]
+pub use index_map::verif;
+
+#[cfg(json_syntax_verif)]
+impl Object {
+	/// Read-only dump of the key index (verification hook).
+	pub fn verif_index_dump(&self) -> (usize, usize, Vec<verif::BucketDump>) {
+		self.indexes.verif_dump()
+	}
+}
+
 pub type Iter<'a> = core::slice::Iter<'a, Entry>;
 
 pub struct IterMut<'a>(std::slice::IterMut<'a, Entry>);
